@@ -15,6 +15,7 @@ Oracle (independent of the model): a Python shadow of records and heartbeats com
 """
 from __future__ import annotations
 
+from collections import Counter
 from typing import Any
 
 from harness import tasks as T
@@ -276,6 +277,8 @@ def run(ctx: Ctx) -> None:
         for k, v in nd.items():
             ctx.obligation(f"correspondence ({k}) on Mem and SQLite == Lean model", v == 0, f"{v} disagreements")
         live_runner(ctx, clock)
+        two_recovery_runs(ctx, clock)
+        large_backlog(ctx, clock)
     finally:
         clock.uninstall()
         drv.close()
@@ -320,6 +323,89 @@ def live_runner(ctx: Ctx, clock: VirtualClock) -> None:
                        {"backend": kind, "after_s": stolen_at})
         if not silent_seen:
             ctx.report(f"silent-runner-not-recovered[{kind}]", f"[{kind}] a runner silent for 45 min was never selected by the running-recovery scan", {"backend": kind})
+
+
+def two_recovery_runs(ctx: Ctx, clock: VirtualClock) -> None:
+    """two recovery runs overlap (the atomic-service windows of two runners are not exclusive under clock skew, and a run may
+    outlive its window): run 1 has scanned everything and is part-way through taking its invocations when run 2 scans, takes and
+    re-queues what it can get; then run 1 goes on.  Neither run may fail, nothing may stay in a *_RECOVERY status, and every
+    stuck invocation ends up re-queued (or already claimed again)."""
+    from pynenc import context
+    from pynenc.invocation.status import InvocationStatus as S
+
+    for kind in ("mem", "sqlite"):
+        for rk in ("pending", "running"):
+            for n, at in ((5, 2), (9, 0), (9, 8)):
+                b = Back(ctx, kind, 5.0, 0.5, f"two{rk}{n}{at}")
+                dead = rctx("rDead")
+                ids = [b.task(j).invocation_id for j in range(n)]
+                for i in ids:
+                    b.o.set_invocation_status(i, S.PENDING, dead)
+                    if rk == "running":
+                        b.o.set_invocation_status(i, S.RUNNING, dead)
+                clock.advance(3_600_000_000)
+                b.o.register_runner_heartbeats(["recovery", "recovery2"])
+                scan = sorted(b.o.get_pending_invocations_for_recovery() if rk == "pending" else b.o.get_running_invocations_for_recovery())
+                out2: list[str] = []
+
+                def second_run(b=b, rk=rk, out2=out2) -> None:
+                    from pynenc import core_tasks
+                    if out2:
+                        return          # the second run's own scan passes the same hook: once only
+                    out2.append("started")
+                    context.set_runner_context(b.app.app_id, rctx("recovery2"))
+                    try:
+                        (core_tasks.recover_pending_invocations if rk == "pending" else core_tasks.recover_running_invocations)()
+                        out2[0] = "done"
+                    except BaseException as e:  # noqa: BLE001
+                        out2[0] = f"raised {type(e).__name__}: {e}"
+                    finally:
+                        context.set_runner_context(b.app.app_id, rctx("recovery"))
+
+                victim = scan[at] if at < len(scan) else None
+                out1 = run_recovery(b.app, rk, (victim, second_run) if victim else None)
+                flush(b.app)
+                q = b.queue()
+                ctx.count()
+                ctx.distinct((kind, "two-runs", rk, n, at))
+                rep = {"scenario": "two-recovery-runs", "backend": kind, "kind": rk, "stuck": n, "second_run_starts_before_item": at}
+                if out1 != "done" or out2 != ["done"]:
+                    ctx.report(f"recovery-run-raised[{kind}]:{rk}:overlapping-runs", f"[{kind}] two overlapping recover_{rk}_invocations runs over {n} stuck invocations (the second starts when the first "
+                                                                                   f"has taken {at}): first run {out1}, second run {out2}", rep)
+                left = [(i, b.rec(i)[0]) for i in ids if b.rec(i)[0] in ("pending_recovery", "running_recovery", "pending" if rk == "pending" else "running")]
+                if left:
+                    ctx.report(f"stranded-in-recovery[{kind}]:{rk}:overlapping-runs", f"[{kind}] after two overlapping recover_{rk}_invocations runs {len(left)} of {n} stuck invocations are still "
+                                                                                     f"{sorted({s for _, s in left})} (not re-queued)", rep)
+                lost = [i for i in ids if b.rec(i)[0] == "rerouted" and i not in q]
+                if lost:
+                    ctx.report(f"rerouted-not-queued[{kind}]:{rk}:overlapping-runs", f"[{kind}] {len(lost)} invocation(s) REROUTED by overlapping recovery runs are in no queue", rep)
+
+
+def large_backlog(ctx: Ctx, clock: VirtualClock) -> None:
+    """ONE recovery run over a backlog larger than any page a scan might fetch at a time: the consumer moves every row it is
+    handed out of the scanned status while the scan is still being consumed"""
+    from pynenc.invocation.status import InvocationStatus as S
+
+    n = 260 if ctx.quick else 1100
+    for kind in ("mem", "sqlite"):
+        for rk in ("pending", "running"):
+            b = Back(ctx, kind, 5.0, 0.5, f"big{rk}")
+            dead = rctx("rDead")
+            ids = [b.task(j).invocation_id for j in range(n)]
+            for i in ids:
+                b.o.set_invocation_status(i, S.PENDING, dead)
+                if rk == "running":
+                    b.o.set_invocation_status(i, S.RUNNING, dead)
+            clock.advance(3_600_000_000)
+            b.o.register_runner_heartbeats(["recovery"])
+            out = run_recovery(b.app, rk)
+            flush(b.app)
+            ctx.count()
+            ctx.distinct((kind, "backlog", rk, n))
+            st = Counter(b.rec(i)[0] for i in ids)
+            if out != "done" or set(st) != {"rerouted"}:
+                ctx.report(f"backlog-not-recovered[{kind}]:{rk}", f"[{kind}] one recover_{rk}_invocations run over {n} stuck invocations: {out}, statuses afterwards {dict(st)} (all should be rerouted)",
+                           {"scenario": "large-backlog", "backend": kind, "kind": rk, "stuck": n, "statuses": dict(st)})
 
 
 def scan_vs_newcomer(ctx: Ctx, kind: str) -> None:
